@@ -88,10 +88,12 @@ pub fn draw_plans(ctx: &mut Ctx, cfg: &RecvCfg) -> Vec<SenderPlan> {
     for i in 0..n {
         let stypes = cfg.kind.peers();
         let stype = stypes[ctx.plan(stypes.len() as u64) as usize];
-        let identity = match ctx.plan(3) {
+        let identity = match ctx.plan(4) {
             0 => None,
             1 => Some(vec![b'a' + i as u8]),
-            _ => Some((0..(1 + ctx.plan(40) as usize)).map(|j| (i * 50 + j + 1) as u8).collect()),
+            2 => Some((0..(1 + ctx.plan(40) as usize)).map(|j| (i * 50 + j + 1) as u8).collect()),
+            // present but empty = anonymous: a unique identity must be assigned
+            _ => Some(vec![]),
         };
         let nm = ctx.plan(cfg.max_msgs + 1) as usize;
         let shapes: Vec<Vec<usize>> = (0..nm).map(|_| draw_shape(ctx, cfg.big)).collect();
@@ -363,7 +365,7 @@ pub fn check_delivery(ctx: &mut Ctx, out: &RecvOut) {
                     Some(l) if *l != label => ctx.violation("router_label_changed", format!("peer {i} labelled {} then {}", world::hex(l), world::hex(&label))),
                     _ => {}
                 }
-                if let Some(id) = &out.plans[i].identity {
+                if let Some(id) = out.plans[i].identity.as_ref().filter(|id| !id.is_empty()) {
                     if *id != label {
                         ctx.violation("router_label_wrong", format!("peer {i} announced identity {} but was labelled {}", world::hex(id), world::hex(&label)));
                     }
